@@ -52,7 +52,8 @@ def gen_program(seed):
     desc = []
     for _ in range(rnd.choice([1, 2, 2, 3])):
         n += 1
-        kind = rnd.choice(["null-direct", "null-nested", "null-nested3", "uninit", "array", "unused", "static-dup", "safe"] + (["odr"] if cpp else []))
+        kind = rnd.choice(["null-direct", "null-nested", "null-nested3", "uninit", "array", "unused", "static-dup", "safe",
+                           "null-nested-2args", "null-nested-argpos", "uninit-nested"] + (["odr"] if cpp else []))
         desc.append(kind)
         a, b, c = (rnd.choice(names) for _ in range(3))
         if kind == "null-direct":
@@ -70,6 +71,24 @@ def gen_program(seed):
             files[b] += "void m%d(int *p) { k%d(p); }\n" % (n, n)
             files[c] += "void k%d(int *p) { e%d(p); }\n" % (n, n)
             files[a] += "void e%d(int *p) { p[0] = %d; }\n" % (n, n)
+        elif kind == "null-nested-2args":
+            # the forwarding function passes BOTH of its parameters to the same callee: two nested-call records that differ
+            # only in the parameter of the forwarding function; the null pointer arrives through the second one
+            protos += ["void mm%d(int *a, int *b);" % n, "void ee%d(int *p);" % n]
+            files[a] += "void cm%d(void) { int v = 0; mm%d(&v, 0); }\n" % (n, n)
+            files[b] += "void mm%d(int *a, int *b) { ee%d(a); ee%d(b); }\n" % (n, n, n)
+            files[c] += "void ee%d(int *p) { *p = %d; }\n" % (n, n)
+        elif kind == "null-nested-argpos":
+            # forwarded into the second parameter of the callee
+            protos += ["void mp%d(int *p);" % n, "void ep%d(int *x, int *y);" % n]
+            files[a] += "void cp%d(void) { mp%d(0); }\n" % (n, n)
+            files[b] += "void mp%d(int *p) { int v = 0; ep%d(&v, p); }\n" % (n, n)
+            files[c] += "void ep%d(int *x, int *y) { *x = 1; *y = %d; }\n" % (n, n)
+        elif kind == "uninit-nested":
+            protos += ["int mu%d(const int *p);" % n, "int ru%d(const int *p);" % n]
+            files[a] += "int cu%d(void) { int x; return mu%d(&x); }\n" % (n, n)
+            files[b] += "int mu%d(const int *p) { return ru%d(p); }\n" % (n, n)
+            files[c] += "int ru%d(const int *p) { return *p + %d; }\n" % (n, n)
         elif kind == "uninit":
             protos.append("int r%d(const int *p);" % n)
             files[a] += "int cu%d(void) { int x; return r%d(&x); }\n" % (n, n)
